@@ -58,6 +58,9 @@ def u8len(c): return z3.If(c < 0x80, 1, z3.If(c < 0x800, 2, z3.If(c < 0x10000, 3
 
 
 def run_task(task):
+    if task.get('kind') == 'parsefile':
+        from . import parsefile_h
+        return parsefile_h.run_task(task)
     pr = prog(); n = task['n']; prop = task['prop']
     fn = find_preprocess()
     h = Harness(pr, 'parser')
@@ -181,6 +184,11 @@ def main(tier, replay=None, prop='C05'):
     rep = common.Report(prop, tier)
     binary = common.build_replay('vr_parser')
     nat = common.Native(binary)
+    if replay and json.load(open(replay)).get('parsefile'):
+        from . import parsefile_h
+        d = json.load(open(replay)); r = parsefile_h.run_task(d['parsefile']); bad = bool(r['violations'])
+        for v in r['violations'][:2]: print('replay (re-execution of parse_file from the current MIR):', v['msg'][:200], v['model'])
+        print('replay: -> %s' % ('VIOLATION' if bad else 'holds')); return 1 if bad else 0
     if replay:
         d = json.load(open(replay))
         bad, got, exp = native_check(nat, d['text'], prop)
@@ -189,6 +197,9 @@ def main(tier, replay=None, prop='C05'):
     # translator validation: concrete strings (incl. the repo's own test inputs) through engine and native code
     rep.validated += selftest(nat, rep)
     ts = tasks(tier, prop)
+    if prop == 'C04':
+        from . import parsefile_h
+        ts = ts + parsefile_h.tasks(tier)
     results = common.run_tasks('specs.C05', ts)
     known = common.load_known(prop); seen = {}
     for r in results:
@@ -197,6 +208,16 @@ def main(tier, replay=None, prop='C05'):
         rep.add_stats(r['stats'])
         for v in r['violations']:
             text = model_text(v['model'], r['task']['n'])
+            if r['task'].get('kind') == 'parsefile':
+                role = {'function': 'parser_logic::parse_file', 'kind': v['kind'], 'class': str((v.get('extra') or {}).get('outcome'))}; key = json.dumps(role, sort_keys=True)
+                if key in seen: continue
+                seen[key] = 1
+                k = common.match_known(known, role)
+                desc = '%s on the source text %r (parser outcome %s, model %s)' % (v['msg'], text, role['class'], v['model'])
+                if k: rep.known_hits.append('%s (%s)' % (k['id'], desc[:200]))
+                else:
+                    rep.violations.append(rep.save_replay(role, {'property': prop, 'parsefile': r['task'], 'text': text, 'violation': v})); common.log('VIOLATION detail:', desc)
+                continue
             bad, got, exp = native_check(nat, text, prop); rep.validated += 1
             if not bad:
                 rep.nonrepro.append({'text': text, 'violation': v, 'observed': got}); continue
@@ -218,6 +239,9 @@ def main(tier, replay=None, prop='C05'):
     rep.assumptions = ['input is valid UTF-8 (a Rust &str)', 'UnclosedCommentError::into_report stubbed (its argument is captured and checked)', 'library models: ' + ', '.join(sorted(rep.models_used))[:400],
                        'source hash ' + pr.hashes['parser']]
     rep.outside = ['texts longer than %d chars' % N, 'what the LALRPOP grammar does with the stripped text']
+    if prop == 'C04':
+        rep.bounds['parse_file'] = 'parser_logic::parse_file around a stubbed parser: every comment-free source of <= %d code points (all of Unicode, byte order mark included), every parser outcome (Ok, InvalidToken, UnrecognizedToken, ExtraToken, UnrecognizedEOF, User) with every span on character boundaries' % (3 if tier == 'quick' else 4)
+        rep.assumptions.append('the contract of the generated parser: error locations are byte offsets on character boundaries of the text it was given')
     if prop == 'C05':
         rep.extra['corollary'] = ('out == reference blanking of F, and blank(F) contains no comment, so preprocess(blank(F)) == blank(F) == preprocess(F) up to '
                                   'newline-vs-blank inside block comments: the grammar sees the same token stream at the same offsets')
